@@ -282,7 +282,7 @@ func pick(paths [][]int, idx []int) [][]int {
 }
 
 func main() {
-	mode := flag.String("mode", "rows", "rows|record")
+	mode := flag.String("mode", "rows", "rows|record|varlen")
 	in := flag.String("in", "", "input json")
 	out := flag.String("out", "summary.json", "summary output")
 	pad := flag.Int("pad", 0, "zero nibbles appended to model keys")
@@ -298,6 +298,8 @@ func main() {
 		runRows(e, *in)
 	case "record":
 		runRecord(e, *trace, *n)
+	case "varlen":
+		runVarlen(e, *trace, *n)
 	default:
 		tl.Fatal("bad mode")
 	}
